@@ -19,6 +19,8 @@ def run(prog, rep, tier):
     apply(rep, "L", "layout unions (L1-L3)", r_life.l123(prog), 4)
     s1 = r_scope.s1(prog)
     apply(rep, "S1", "every sub-expression context opens a scope", (s1[0], s1[1]), 10)
+    import r_core
+    apply(rep, "P2b", "the type profile that licenses pop_as's static_cast describes the real value types (abstract evaluation)", r_core.p2b(prog, tier), 2)
     apply(rep, "Y4", "%destructor for owning semantic values", r_life.y4(prog), 3)
     apply(rep, "Y5", "no throw through bison/flex C frames", r_life.y5(prog), 2)
     maybe_mutants("C13", rep, tier)
